@@ -39,7 +39,7 @@ fn run_case(_kind: &str, idx: u64, rng: &mut Rng, mon: &mut Mon, _tier: Tier) {
     let layers = gen_stack(rng, depth, false, &["Tool", "Base", "Frame", "Parallelogram"]);
     let sname = stack_name(&layers);
     let eps = *rng.pick(&[1e-7, 1e-6, 1e-5]);
-    let mut q = joints_uniform(rng, PI);
+    let mut q = if rng.bool(0.2) { joints_resting(rng, PI) } else { joints_uniform(rng, PI) };
     // limits: none / wide / a joint sitting within the differencing step of a limit
     let lim_mode = rng.usize(3);
     let cons = if lim_mode == 0 {
